@@ -5,7 +5,7 @@ import CTV.Model.SigInput
 Model of signature verification (C05):
 
 * `verifySignature` — tls.VerifySignature (tls/signature.go), an interpreter of the **regenerated**
-  tables `Gen.sigHashTable`, `Gen.sigAlgTable`, `Gen.sigReject`;
+  tables `Gen.sigHashTable`, `Gen.sigAlgTable`, `Gen.sigReject`, `Gen.sigExactDER`;
 * `newVerifier` — ct.NewSignatureVerifier (signatures.go), the regenerated `Gen.newVerifier`;
 * `verifySCT` / `verifySTH` — SignatureVerifier.VerifySCTSignature / VerifySTHSignature;
 * `newFromSignedJSON` — loglist3.NewFromSignedJSON (regenerated algorithm choice).
@@ -77,6 +77,7 @@ def verifySignature (P : Prims) (key : Key) (data : Bytes) (ds : DigitallySigned
         | some p =>
           if !trailingIgnored && !p.rest.isEmpty then .err
           else if Gen.sigReject ds.sigAlg p.r p.s then .err
+          else if Gen.sigExactDER ds.sigAlg && !p.extra.isEmpty then .err   -- checkExactDER, where the code has it
           else if key.isNil then .panic
           else if P.prim key h d (.pair p.r p.s) then .ok else .err
 
